@@ -59,6 +59,13 @@ theorem shift_negative_count (a b : Int) (hb : b < 0) :
     applyBin .shl a b = .error .cdef ∧ applyBin .shr a b = .error .cdef := by
   simp [applyBin_def, applyBinSpec, hb]
 
+/-- Error branch: a left shift by more than `shiftBound` (4096) bits is not materialised: the model
+answers `overflow` (CPython: OverflowError / MemoryError) without building `2 ^ count`.  No other
+theorem is affected: where C defines a shift the count is below 64. -/
+theorem huge_left_shift (a b : Int) (hb : b > shiftBound) : applyBin .shl a b = .error .overflow := by
+  have h0 : ¬ b < 0 := by unfold shiftBound at hb; omega
+  simp [applyBin_def, applyBinSpec, h0, hb]
+
 /-- Error branch: nodes outside the grammar and unknown names raise `FFIError`. -/
 theorem unsupported_is_ffi_error (env : ConstExpr.Env) (n : String) (h : env n = none) :
     ConstExpr.eval env .unsupported = .error .ffi ∧ ConstExpr.eval env (.ref n) = .error .ffi := by
